@@ -182,3 +182,14 @@ pub mod mania;
 
 /// Types used in and around this crate.
 pub mod model;
+
+/// Verification hook: re-exports of internal helpers so that an external
+/// harness can drive them directly. Only compiled with the `verif` feature.
+#[cfg(feature = "verif")]
+#[doc(hidden)]
+pub mod __verif {
+    pub use crate::util::{
+        sort::{csharp, osu_legacy, TandemSorter},
+        strains_vec::StrainsVec,
+    };
+}
